@@ -39,14 +39,14 @@ func dagConsumers(n, k int) [][]int {
 
 // EnumCase identifies one enumerated injector.
 type EnumCase struct {
-	N     int
-	Shape int
-	Mask  int  // bit i = node i Async
-	Desc  bool // parameters in descending producer order
-	ErrMask int // bit i = node i fallible
-	FieldMask int // bit i = node i returns a struct that is expanded; its consumers take the field
-	PairMask int // bit i = node i returns two values; its consumers take them alternately (the first consumer the SECOND value)
-	Cons [][]int // explicit consumer lists (layered family); nil = decode Shape
+	N         int
+	Shape     int
+	Mask      int     // bit i = node i Async
+	Desc      bool    // parameters in descending producer order
+	ErrMask   int     // bit i = node i fallible
+	FieldMask int     // bit i = node i returns a struct that is expanded; its consumers take the field
+	PairMask  int     // bit i = node i returns two values; its consumers take them alternately (the first consumer the SECOND value)
+	Cons      [][]int // explicit consumer lists (layered family); nil = decode Shape
 }
 
 // EnumCases lists all cases for n (both parameter orders when both is set).
